@@ -5,7 +5,7 @@
    constant_folding.py is NOT modelled: fold_constants enters the pipeline as an arbitrary function (an oracle recorded by the harness).
    Recursions that are not structural take fuel; None = out of fuel or a case in which the Python code raises. *)
 From Coq Require Import ZArith List Bool.
-From Bingo Require Import Gen.OpDefs Model.Stack.
+From Bingo Require Import Gen.OpDefs Model.Stack Model.Parse.
 Import ListNotations.
 Open Scope Z_scope.
 
@@ -363,9 +363,7 @@ Fixpoint build_cas_rec (fuel : nat) (s : stack) (loc : Z) : option cexpr :=
 Definition build_cas (s : stack) : option cexpr := build_cas_rec (S (length s)) s (Z.of_nat (length s) - 1).
 
 (* build_agraph_stack: the command dictionary as the list of commands in insertion order *)
-Definition cmd_eqb3 (a b : cmd) : bool := (node_of a =? node_of b) && (p1_of a =? p1_of b) && (p2_of a =? p2_of b).
-Fixpoint find_cmd (c : cmd) (rows : stack) (i : Z) : option Z :=
-  match rows with [] => None | r :: q => if cmd_eqb3 c r then Some i else find_cmd c q (i + 1) end.
+(* (find_cmd: Model/Parse.v - both builders keep a dictionary from commands to rows) *)
 Definition add_command (c : cmd) (rows : stack) : Z * stack :=
   match find_cmd c rows 0 with Some i => (i, rows) | None => (Z.of_nat (length rows), rows ++ [c]) end.
 (* _add_associative_operators_to_stack: balanced splitting of an n-ary operator *)
@@ -404,6 +402,22 @@ Fixpoint build_stack_rec (fuel : nat) (e : cexpr) (rows : stack) : option (Z * s
 Definition build_agraph_stack (e : cexpr) : option stack :=
   o_bind (build_stack_rec (S (csize e)) e []) (fun '(_, rows) =>
     Some (map (fun c => if node_of c =? CONSTANT then (CONSTANT, -1, -1) else c) rows)).
+
+(* the shapes build_agraph_stack gives the intended meaning to: one operand for unary operators, two for binary ones, three or more
+   only for sums and products *)
+Fixpoint arity_ok (e : cexpr) : bool :=
+  match e with
+  | Leaf o _ => is_terminal o
+  | Node o l =>
+    negb (is_terminal o) &&
+    (match l with
+     | [] => false
+     | [_] => negb (is_arity_2 o)
+     | [_; _] => is_arity_2 o
+     | _ => (o =? ADDITION) || (o =? MULTIPLICATION)
+     end) &&
+    (fix all (l : list cexpr) : bool := match l with [] => true | x :: r => arity_ok x && all r end) l
+  end.
 
 (* ---------------- simplify.py: the pipeline; [fold] stands for fold_constants ---------------- *)
 Definition simplify_stack (chk : bool) (fuel : nat) (fold : cexpr -> cexpr) (s : stack) : option stack :=
